@@ -27,14 +27,15 @@ def harnesses(tier):
         sizes = [(1, 0), (1, 1), (2, 0), (2, 1), (2, 2), (3, 0), (3, 1), (3, 3)]
         h = P.curated_h(ALL, sizes, "sync")
         h += P.curated_h(["P12-bounded-queue", "P2-two-submitters", "P11-saturate"], [(1, 0), (2, 1)], "sync", qsize=1)
-        h += P.generated_h(4, [(1, 0), (1, 1), (2, 0), (2, 1), (3, 1)], "sync")
+        h += P.generated_h(4, [(1, 0), (2, 0), (2, 1)], "sync")
+        h += P.generated_h(3, [(1, 1), (3, 1)], "sync")
         h += P.curated_h(ALL, [(1, 0), (1, 1), (2, 0), (2, 1)], "line")
     h += P.scale_h(tier, ["S10-callable-kinds", "S1-twelve-tasks", "S2-ten-prequeued", "S4-two-submitters-five-each", "S8-backlog-behind-gate"])  # many tasks / restarts / larger pools, first ladder levels
     h += P.fault_h(tier)  # a worker-thread creation that fails
     return h
 
 
-BUDGET = {"quick": 1500, "thorough": 60000}
+BUDGET = {"quick": 1500, "thorough": 30000}
 
 
 def leg(part, tier, shard, nshards):
